@@ -68,6 +68,9 @@ fn main() -> Result<()> {
 
     let targets = config.try_into_domain_targets(&root_target_ids)?;
 
+    #[cfg(zinoma_verif)]
+    engine::register_verif_message_formats();
+
     task::block_on(async {
         if arg_matches.is_present(cli::arg::CLEAN) {
             if requested_targets.is_some() {
